@@ -100,6 +100,35 @@ def mk_txn(r, k, keep, printed_uuid, extra=True):
     return t
 
 
+def pick_channel(r, c):
+    """c["audit"] is the EFFECTIVE mode (what the model gets). Choose independently the configuration
+    file's `audit = { mode = .. }` and an optional session override (command line); effective = override
+    if present else file."""
+    eff = c["audit"]
+    k = r.random()
+    if k < 0.3:
+        c["audit_file"], c["audit_override"] = eff, None
+    elif k < 0.5:
+        c["audit_file"], c["audit_override"] = eff, eff
+    else:
+        c["audit_file"], c["audit_override"] = (not eff), eff
+    return c
+
+
+def channel_of(c):
+    f = c.get("audit_file", c["audit"])
+    o = c.get("audit_override")
+    eff = f if o is None else o
+    if eff != c["audit"]:
+        raise Infra("case with inconsistent audit channels: %r" % ({k: c.get(k) for k in ("audit", "audit_file", "audit_override")},))
+    return f, o
+
+
+def channel_name(c):
+    f, o = channel_of(c)
+    return "file=%s,override=%s" % (g_bool(f), "none" if o is None else g_bool(o))
+
+
 FILTERS = [
     ("none", None),
     ("desc-keep", {"txnFilter": {"TxnFilterTxnDescription": {"regex": "t\\d+ keep"}}}),
@@ -159,8 +188,8 @@ def gen_journal_case(run):
         tok = r.choice([x for x in raws if x is not None])
         if re.fullmatch(r"[0-9a-fA-F]{8}(-[0-9a-fA-F]{4}){3}-[0-9a-fA-F]{12}", tok):
             fname, flt = "uuid", {"txnFilter": {"TxnFilterTxnUUID": {"uuid": tok.lower()}}}
-    return {"kind": "journal", "audit": audit, "hash": hname, "raws": raws, "txns": txns, "filter": flt, "filter_name": fname,
-            "meta_order": r.choice(["ult", "utl", "tul", "tlu", "lut", "ltu"]), "tags": tags, "src": "gen"}
+    return pick_channel(r, {"kind": "journal", "audit": audit, "hash": hname, "raws": raws, "txns": txns, "filter": flt, "filter_name": fname,
+            "meta_order": r.choice(["ult", "utl", "tul", "tlu", "lut", "ltu"]), "tags": tags, "src": "gen"})
 
 
 def gen_selector_case(run):
@@ -172,9 +201,9 @@ def gen_selector_case(run):
         pats.append(r.choice(pats))          # repeated pattern
     if r.random() < 0.3:
         pats = sorted(pats, reverse=True)
-    return {"kind": "selector", "audit": audit, "hash": r.choice(list(HASHES)), "pats": pats,
+    return pick_channel(r, {"kind": "selector", "audit": audit, "hash": r.choice(list(HASHES)), "pats": pats,
             "op": r.choice(["text_balance", "text_register", "text_balgrp", "equity"]),
-            "via": r.choice(["overlap", "overlap", "report", "own"]), "tags": [], "src": "gen"}
+            "via": r.choice(["overlap", "overlap", "report", "own"]), "tags": [], "src": "gen"})
 
 
 SEL_JOURNAL = """2024-01-01 'x
@@ -200,20 +229,26 @@ def journal_text(c):
 
 def requests_of(c):
     """harness requests of one case (first = the run under test)"""
+    afile, aover = channel_of(c)
     if c["kind"] == "journal":
         text = journal_text(c)
-        a = {"conf": {"toml": J.make_toml(audit=g_bool(c["audit"]), hash=c["hash"])}, "inputs": [{"text": text}],
+        a = {"conf": {"toml": J.make_toml(audit=g_bool(afile), hash=c["hash"])}, "inputs": [{"text": text}],
              "ops": [{"op": "metadata"}, {"op": "txns"}]}
-        b = {"conf": {"toml": J.make_toml(audit="false")}, "inputs": [{"text": text}], "ops": [{"op": "txns"}]}
+        if aover is not None:
+            a["overlaps"] = {"audit": aover}
+        # selection run: audit off through both channels
+        b = {"conf": {"toml": J.make_toml(audit="false")}, "overlaps": {"audit": False}, "inputs": [{"text": text}], "ops": [{"op": "txns"}]}
         if c["filter"] is not None:
             a["filter"] = json.dumps(c["filter"])
             b["filter"] = json.dumps(c["filter"])
         return [a, b]
-    kw = {"audit": g_bool(c["audit"]), "hash": c["hash"]}
-    rq = {"inputs": [{"text": SEL_JOURNAL}], "ops": [{"op": c["op"]}]}
+    kw = {"audit": g_bool(afile), "hash": c["hash"]}
+    rq = {"inputs": [{"text": SEL_JOURNAL}], "ops": [{"op": c["op"]}], "overlaps": {}}
+    if aover is not None:
+        rq["overlaps"]["audit"] = aover
     lst = ", accounts = " + J.toml_list(c["pats"])
     if c["via"] == "overlap":
-        rq["overlaps"] = {"accounts": c["pats"]}
+        rq["overlaps"]["accounts"] = c["pats"]
     elif c["via"] == "report":
         kw["raccounts"] = "accounts = " + J.toml_list(c["pats"])
     else:
@@ -359,8 +394,11 @@ def run_cases(run, cases):
     terms, meta = [], []          # meta: (case index, what)
     py_viol = []
     stages, tagc, kinds = {}, {}, {}
+    chan = {}
     for ci, c in enumerate(cases):
         rs = per[ci]
+        ck = c["kind"] + ":" + channel_name(c)
+        chan[ck] = chan.get(ck, 0) + 1
         if c["kind"] == "journal":
             obs, viol, info = observe_journal(c, rs[0], rs[1])
         else:
@@ -385,7 +423,7 @@ def run_cases(run, cases):
     vals, errs = coq_eval("C09", IMPORTS, terms)
     if errs:
         raise Infra("coq evaluation failed: " + errs[0])
-    return meta, vals, py_viol, stages, tagc, kinds
+    return meta, vals, py_viol, stages, tagc, kinds, chan
 
 
 def replay_obj(c):
@@ -405,7 +443,7 @@ def main(run):
     cases = load_corpus()
     cases += [gen_journal_case(run) for _ in range(nj)]
     cases += [gen_selector_case(run) for _ in range(ns)]
-    meta, vals, py_viol, stages, tagc, kinds = run_cases(run, cases)
+    meta, vals, py_viol, stages, tagc, kinds, chan = run_cases(run, cases)
     distinct = set()
     for (ci, what), v in zip(meta, vals):
         c = cases[ci]
@@ -441,11 +479,11 @@ def main(run):
             run.known_finding(f.get("what", f.get("id", "")))
     run.cov["distinct_nontrivial"] = len(distinct)
     run.cov["rule"] = ("journals of 1-12 transactions with mixed-case uuids (reused among selected / unselected / across, same uuid in another letter case, one-digit neighbours, "
-                       "missing, malformed), 6 filter shapes + uuid filter, audit on/off, the five algorithms and unsupported names; selection observed with audit off; "
+                       "missing, malformed), 6 filter shapes + uuid filter, effective audit mode on/off set through the configuration file and/or a session override (all file x override combinations, the model gets the effective mode), the five algorithms and unsupported names; selection observed with audit off; "
                        "reported digest compared with hashlib over the independently built pre-image, which Coq compares with the model's pre-image (H := identity) and the oracle; "
                        "selector lists (0-7 patterns incl. wrapped, repeated, non-ASCII, empty) through balance/register/balance-group/equity, via overlap / report / per-report configuration; "
                        "non-trivial = a digest was reported; distinct = distinct digests")
-    run.notes.update({"stages": stages, "injected": tagc, "observations": kinds, "corpus_cases": sum(1 for c in cases if c["src"] != "gen")})
+    run.notes.update({"stages": stages, "injected": tagc, "observations": kinds, "audit_channels": chan, "corpus_cases": sum(1 for c in cases if c["src"] != "gen")})
     return run.finish(info)
 
 
